@@ -627,7 +627,7 @@ class Discharger:
             wf = True
             why = ""
             try:
-                from ..scm import library as scmlib
+                from scm import library as scmlib
                 wf, why = scmlib.bundled_wellformed()
             except ImportError:
                 self.ctx.note("Engine C not available: well-formedness of the bundled .sld files is assumed for D-const-input")
